@@ -2,7 +2,8 @@
   Driver.OpsC06 — protocol operations for property C06.
 
   c06u  <whole fields> <k> <piece fields>*k
-        → hyp=<b> f3=<b> part=<b> conf=<b> ok=<b> model=<merged fields, tokens joined by ','>
+        → hyp=<b> f3=<b> part=<b> conf=<b> ok=<b> okby=<b> model=<merged fields, tokens joined by ','>
+          (ok = Spec.readsAsWhole, okby = the name-indexed Spec.readsAsWholeBy the theorems speak about)
   c06s  <isPoint> <ndim> { <npieces> n … }
         → hyp=<b> idx=<indices of piece 0>;<piece 1>;…   (pieces in `_piece_locations` order)
           cover=<b> once=<b> n=<number of merged entities>
@@ -48,7 +49,10 @@ def opC06u : P String := do
   match mergeAll lexsortIdx pieces with
   | none => failure
   | some m =>
-    pure s!"hyp={showBool hyp} f3={showBool f3} part={showBool part} conf={showBool conf} ok={showBool (Spec.readsAsWhole m whole)} model={encFields m}"
+    let cnames := dedupNames (whole.cellFields.map (·.name))
+    let pnames := whole.pointFields.map (·.name)
+    let okby := Spec.readsAsWholeBy cnames pnames m whole && Spec.sameSchema m whole
+    pure s!"hyp={showBool hyp} f3={showBool f3} part={showBool part} conf={showBool conf} ok={showBool (Spec.readsAsWhole m whole)} okby={showBool okby} model={encFields m}"
 
 def pDecomp : P (List (List Nat)) := pList (pList pNat)
 
